@@ -11,6 +11,7 @@ from .. import gens
 from ..common import driver
 
 THEOREMS = '''parse_hamiltonian_valid_never_rejected parse_hamiltonian_rejects_iff
+parse_hamiltonian_rejected_invalid parse_args_rejected_invalid
 parse_hamiltonian_rejection_explained parse_hamiltonian_violation_invalid
 parse_hamiltonian_class_of_corruption parse_hamiltonian_error_class parse_args_valid_never_rejected
 parse_args_rejects_iff parse_args_rejection_explained parse_args_violation_invalid
@@ -721,6 +722,14 @@ def corruptions_ctor(rng):
         it[0] = it[0][:, :-1]
         return {'ValueError'}
 
+    def m_rowvectors(Hc, Hn, dt, kw):
+        # d row vectors of length d (or d 1-d arrays): the stack is square, no operator is
+        H = Hc if rng.random() < .5 else Hn
+        d = H[0][0].shape[0]
+        shape = (1, d) if rng.random() < .5 else (d,)
+        H[:] = [[rng.standard_normal(shape), list(H[0][1]), f'R{i}'] for i in range(d)]
+        return {'ValueError'}
+
     def m_dim(Hc, Hn, dt, kw):
         H = Hc if rng.random() < .5 else Hn
         d = H[0][0].shape[0]
@@ -775,7 +784,7 @@ def corruptions_ctor(rng):
         return DOC
 
     return [(f.__name__[2:], (lambda f=f: build(f))) for f in
-            (m_neg, m_cplx, m_scalar, m_coeff_len, m_nonsquare, m_dim, m_dup, m_dup_default,
+            (m_neg, m_cplx, m_scalar, m_coeff_len, m_nonsquare, m_rowvectors, m_dim, m_dup, m_dup_default,
              m_basis_type, m_basis_dim, m_H_notlist, m_oper_nested, m_no_coeff, m_coeff_scalar)]
 
 
